@@ -121,6 +121,20 @@ func scalarDtypeCheck(a Tensor, b interface{}) error {
 	return nil
 }
 
+// oneElement presents the storage of a single-element tensor as exactly that element. A view of one element can have a
+// storage window longer than that (a slice cut from a stepped slice keeps the window up to the next selected element),
+// and the kernels tell a scalar operand from a vector one by the length of the header: with a longer window the single
+// element was taken for the vector, and the result was written into it although it was only an operand.
+func oneElement(t Tensor, hdr *storage.Header) *storage.Header {
+	if hdr == nil || t == nil || t.Size() != 1 {
+		return hdr
+	}
+	if sz := int(t.Dtype().Size()); sz > 0 && len(hdr.Raw) > sz {
+		return &storage.Header{Raw: hdr.Raw[:sz:sz]}
+	}
+	return hdr
+}
+
 // differentLayout reports whether two tensors of one shape lay their elements out differently in memory.
 // By the time the data is prepared, handleFuncOpts has already overwritten the data order flag of a reuse tensor
 // with that of the operands, so the flag cannot tell: the strides are compared.
@@ -144,10 +158,10 @@ func differentLayout(a, b Tensor) bool {
 // swap indicates that the operands are swapped.
 func prepDataVV(a, b Tensor, reuse Tensor) (dataA, dataB, dataReuse *storage.Header, ait, bit, iit Iterator, useIter, swap bool, err error) {
 	// get data
-	dataA = a.hdr()
-	dataB = b.hdr()
+	dataA = oneElement(a, a.hdr())
+	dataB = oneElement(b, b.hdr())
 	if reuse != nil {
-		dataReuse = reuse.hdr()
+		dataReuse = oneElement(reuse, reuse.hdr())
 	}
 
 	// iter
@@ -179,10 +193,10 @@ func prepDataVV(a, b Tensor, reuse Tensor) (dataA, dataB, dataReuse *storage.Hea
 
 func prepDataVS(a Tensor, b interface{}, reuse Tensor) (dataA, dataB, dataReuse *storage.Header, ait, iit Iterator, useIter bool, newAlloc bool, err error) {
 	// get data
-	dataA = a.hdr()
+	dataA = oneElement(a, a.hdr())
 	dataB, newAlloc = scalarToHeader(b)
 	if reuse != nil {
-		dataReuse = reuse.hdr()
+		dataReuse = oneElement(reuse, reuse.hdr())
 	}
 
 	if a.IsScalar() {
@@ -203,9 +217,9 @@ func prepDataVS(a Tensor, b interface{}, reuse Tensor) (dataA, dataB, dataReuse 
 func prepDataSV(a interface{}, b Tensor, reuse Tensor) (dataA, dataB, dataReuse *storage.Header, bit, iit Iterator, useIter bool, newAlloc bool, err error) {
 	// get data
 	dataA, newAlloc = scalarToHeader(a)
-	dataB = b.hdr()
+	dataB = oneElement(b, b.hdr())
 	if reuse != nil {
-		dataReuse = reuse.hdr()
+		dataReuse = oneElement(reuse, reuse.hdr())
 	}
 
 	// get iterator
@@ -227,9 +241,9 @@ func prepDataSV(a interface{}, b Tensor, reuse Tensor) (dataA, dataB, dataReuse 
 
 func prepDataUnary(a Tensor, reuse Tensor) (dataA, dataReuse *storage.Header, ait, rit Iterator, useIter bool, err error) {
 	// get data
-	dataA = a.hdr()
+	dataA = oneElement(a, a.hdr())
 	if reuse != nil {
-		dataReuse = reuse.hdr()
+		dataReuse = oneElement(reuse, reuse.hdr())
 	}
 
 	// get iterator
